@@ -123,6 +123,29 @@ Theorem c03_single_index_refuted_c :
     muted ex_re (run ex_re (map new_rule cfgs) h) lset now = true /\ old_muted ex_re cfgs h lset now = false.
 Proof. exists [ex_rule_c], ex_hc, (2 * ex_min), ex_t. vm_compute. repeat split; discriminate. Qed.
 
+(* ---- known finding refired-source-unindexed-after-gc: the GC's two steps are not atomic together ----
+   With nothing in between they are OGC (gc_rule_split). With the subscription loop processing the update that makes
+   the collected source fire again in between, the source ends up cached but not indexed: its target is not muted
+   although the source fires - against c03_mutes_iff_spec for the history "resolve, GC, fire again". *)
+Theorem c03_gc_steps_are_ogc now r :
+  gc_callback_rule (snd (gc_delete_rule now r)) (fst (gc_delete_rule now r)) = gc_rule now r.
+Proof. exact (gc_rule_split now r). Qed.
+
+Theorem c03_gc_callback_window_refuted :
+  exists (s_res s_fire : alert) (now : Z),
+    let r0 := process_rule ex_re s_res (new_rule ex_rule) in
+    let '(r1, dead) := gc_delete_rule now r0 in          (* GC, step 1: S (resolved) leaves the cache *)
+    let r2 := process_rule ex_re s_fire r1 in            (* the subscription loop: S fires again *)
+    let r3 := gc_callback_rule dead r2 in                (* GC, step 2: the callback drops S's index entry *)
+    resolved_at s_fire (now + 1) = false /\ ir_sc r3 !! ex_s1 = Some s_fire /\
+    muted ex_re [r3] ex_t (now + 1) = false /\
+    (* the atomic GC of the model, on the same history, keeps the target muted *)
+    muted ex_re (run ex_re (map new_rule [ex_rule]) [(1, OProcess s_res); (now, OGC (fun _ => true)); (now, OProcess s_fire)]) ex_t (now + 1) = true.
+Proof.
+  exists (mkA ex_s1 1 (5 * ex_min) 1), (mkA ex_s1 1 (60 * ex_min) (15 * ex_min)), (15 * ex_min).
+  vm_compute. repeat split; discriminate.
+Qed.
+
 (* ---- non-vacuity: the hypotheses are met by concrete histories on which the verdict is not constant ---- *)
 Example c03_nonvacuous_history :
   let ih := run ex_re (map new_rule [ex_rule]) ex_hb in
